@@ -97,7 +97,7 @@ func c03Step(server bool, prop string) {
 		}
 		if opened && err == nil && msg[0] == byte(MessageTypeTransport) {
 			// roaming works: after a genuine packet the session points at its source
-			verifAssert(EqualUDPAddress(ss.remoteAddr, from), "C15: after a genuine packet from a new address, traffic goes to that address")
+			verifAssert(sessAddrEq(ss.remoteAddr, from), "C15: after a genuine packet from a new address (IP or port), traffic goes to that address")
 			verifCover("genuine")
 		}
 		if !opened {
